@@ -21,13 +21,22 @@ from .c12 import measure_map
 
 
 def marginal_job(N):
+    """contract of the internal helper class CircuitResult.  If the class no longer has this interface (AttributeError / TypeError ...) the helper argument is withdrawn
+    (one UNDECIDED record); the fitter-level families decide the property through the public API."""
+    try:
+        return _marginal_job(N)
+    except Exception as e:
+        return [("C11.marginal.post", None, f"marg:{N}:interface", f"CircuitResult no longer offers the interface this helper contract is stated for ({type(e).__name__}: {e})", {"N": N})]
+
+
+def _marginal_job(N):
     from htstabilizer.tomography import CircuitResult
     out = []
     for m in range(1, N + 1):
         for ql in itertools.permutations(range(N), m):
             for spaced in (False, True):
                 keys = tomo.outcome_keys(N, spaced)
-                counts = {s: ("tok", b) for b, s in keys}
+                counts = {s: 1000003 + 7 * b for b, s in keys}            # one distinct number per key: which count ended up where is visible by value
                 cr = CircuitResult(counts, list(ql))
                 ok = cr.num_qubits == m and len(cr.results) == len(keys)
                 bad = None
@@ -35,7 +44,7 @@ def marginal_job(N):
                     want = 0
                     for k, q in enumerate(ql):
                         want |= ((b >> q) & 1) << k
-                    if int(r.bitstring) != want or r.count is not counts[s]:
+                    if int(r.bitstring) != want or r.count != counts[s]:
                         ok, bad = False, (s, int(r.bitstring), want)
                         break
                 out.append(("C11.marginal.post", ok, f"marg:{N}:{list(ql)}:{spaced}",
@@ -207,6 +216,10 @@ def run(ctx: core.Ctx):
     fam.domain = "all keys of N = 1..5 bits (with and without a register space) x all ordered subsets of qubits"
     for res in core.pmap(marginal_job, [1, 2, 3, 4, 5] + ([] if ctx.quick else [6]), chunks=1):
         for famname, ok, key, what, rp in res:
+            if ok is None:
+                ctx.record(fam, core.UNKNOWN, rp)
+                ctx.undecide(fam, what)
+                continue
             ctx.record(fam, PROVED if ok else REFUTED, rp if fam.total < 2 else None)
             if not ok:
                 ctx.violate(fam, key, what, rp)
